@@ -88,7 +88,7 @@ type Server struct {
 	serverID             string
 	serviceName          string
 	protocolVersion      string // canonical semver MAJOR.MINOR.PATCH, or "" when opted out
-	protocolVersionParts [3]int // parsed (major, minor, patch); used when protocolVersion != ""
+	protocolVersionParts [3]string // (major, minor, patch) decimal components; used when protocolVersion != ""
 	protocolVersionSet   bool   // true when SetProtocolVersion was called with a non-empty value
 	protocolHash         string
 	protocolHashOnce     sync.Once
@@ -276,15 +276,15 @@ func (s *Server) SetProtocolVersion(v string) {
 	if v == "" {
 		s.protocolVersion = ""
 		s.protocolVersionSet = false
-		s.protocolVersionParts = [3]int{}
+		s.protocolVersionParts = [3]string{}
 		return
 	}
-	major, minor, patch, err := parseSemver(v)
-	if err != nil {
+	if _, _, _, err := parseSemver(v); err != nil {
 		panic(err)
 	}
+	parts, _ := semverParts(v)
 	s.protocolVersion = v
-	s.protocolVersionParts = [3]int{major, minor, patch}
+	s.protocolVersionParts = parts
 	s.protocolVersionSet = true
 }
 
@@ -312,8 +312,11 @@ func (s *Server) checkProtocolVersion(clientVersion string, present bool) *Proto
 				"non-VGI client connecting to a VGI worker.",
 		}
 	}
-	major, minor, _, err := parseSemver(clientVersion)
-	if err != nil {
+	// Components are compared as canonical decimal strings, not ints: two
+	// different components beyond the int range would otherwise both saturate
+	// and compare equal.
+	clientParts, ok := semverParts(clientVersion)
+	if !ok {
 		return &ProtocolVersionError{
 			Message: "VGI client/worker protocol_version mismatch.\n" +
 				"  Client: " + clientVersion + "\n" +
@@ -322,12 +325,13 @@ func (s *Server) checkProtocolVersion(clientVersion string, present bool) *Proto
 				"Expected canonical semver MAJOR.MINOR.PATCH.",
 		}
 	}
-	serverMajor, serverMinor := s.protocolVersionParts[0], s.protocolVersionParts[1]
-	if major == serverMajor && minor == serverMinor {
+	majorCmp := compareSemverPart(clientParts[0], s.protocolVersionParts[0])
+	minorCmp := compareSemverPart(clientParts[1], s.protocolVersionParts[1])
+	if majorCmp == 0 && minorCmp == 0 {
 		return nil
 	}
 	var direction string
-	if major < serverMajor || (major == serverMajor && minor < serverMinor) {
+	if majorCmp < 0 || (majorCmp == 0 && minorCmp < 0) {
 		direction = "client is too old; upgrade the VGI extension/client to a " +
 			"version supporting protocol_version " + s.protocolVersion + "."
 	} else {
